@@ -76,6 +76,7 @@ func regionSig(v reflect.Value, f *edfFacts) string {
 
 func runC11(c *Ctx) {
 	r := c.R
+	c.Rng = c.Rng.Fork() // core's seeds s and s+1 yield the same stream shifted by one draw; a fork is mixed
 	edfRegister()
 	cfgs := edfConfigs()
 	pre := edfPreamble()
